@@ -206,6 +206,7 @@ def check(P: Project, R: Report) -> None:
     R.extra["constructor_emitters"] = n_call
 
     # ------------------------------------------------------------------ R3
+    presence_not_truthiness(P, R)
     kind_table(P, R)
 
     # ------------------------------------------------------------------ R5
@@ -298,6 +299,62 @@ def id_not_nullable(P: Project, f: FuncInfo, idt: Optional[str], lits, an: PathA
 
 
 # ----------------------------------------------------------------------------- kind table
+def presence_not_truthiness(P: Project, R: Report) -> None:
+    """R3, reading discipline of the parser: which kind a message is depends on which members are *present* (or null),
+    never on whether a member's value is truthy — 0 and "" are legal ids, [] / 0 / false / "" are legal results."""
+    pm = P.func(A.MOD_JSONRPC, "parse_message")
+    dp = pm.positional_params()[0]
+    fns = [pm] + [g for g in P.funcs_in(A.MOD_JSONRPC) if g.parent is None and g.cls is None and g is not pm and any(isinstance(c, ast.Call) and P.resolve_call(pm, c) is g for c in walk_local(pm.node))]
+    LEGAL_FALSY = {"id", "result"}
+    n = 0
+    for f in fns:
+        params = set(f.positional_params())
+        lv = None
+
+        def member_read(e):
+            """('k', text) if `e` is `<message>.get('k'[, d])` / `<message>['k']` on a parameter (the parsed object)"""
+            if isinstance(e, ast.Call) and isinstance(e.func, ast.Attribute) and e.func.attr == "get" and isinstance(e.func.value, ast.Name) and e.func.value.id in params and e.args and isinstance(e.args[0], ast.Constant):
+                return str(e.args[0].value)
+            if isinstance(e, ast.Subscript) and isinstance(e.value, ast.Name) and e.value.id in params and isinstance(e.slice, ast.Constant):
+                return str(e.slice.value)
+            return None
+
+        def truth_uses(test):
+            """member reads whose truth value decides `test`"""
+            out = []
+            if isinstance(test, ast.UnaryOp) and isinstance(test.op, ast.Not):
+                return truth_uses(test.operand)
+            if isinstance(test, ast.BoolOp):
+                for v in test.values:
+                    out += truth_uses(v)
+                return out
+            k = member_read(test)
+            if k is not None:
+                out.append((k, test))
+            return out
+
+        sites = []
+        for x in walk_local(f.node):
+            if isinstance(x, (ast.If, ast.IfExp, ast.While)):
+                sites += truth_uses(x.test)
+            if isinstance(x, ast.comprehension):
+                for c in x.ifs:
+                    sites += truth_uses(c)
+            if isinstance(x, ast.Call) and call_name(x) in ("filter", "any", "all", "bool") and x.args:
+                a0 = x.args[0]
+                if call_name(x) == "filter" and isinstance(a0, ast.Attribute) and a0.attr == "get" and isinstance(a0.value, ast.Name) and a0.value.id in params and len(x.args) == 2:
+                    keys = try_fold(P, f.module, x.args[1])
+                    for k in (keys if isinstance(keys, (list, tuple, set, frozenset)) else ["?"]):
+                        sites.append((str(k), x))
+                elif call_name(x) == "bool":
+                    sites += truth_uses(a0)
+        for k, node in sites:
+            n += 1
+            R.ob("R3", f"{f.qual}: member `{k}` is classified by presence, not by the truth of its value", k not in LEGAL_FALSY and k != "?", f"{f.module.rel}:{node.lineno}",
+                 f"`{ast.unparse(node)[:70]}` decides on the truth value of `{k}`: a legal falsy value (id 0 or \"\", result [] / 0 / false / \"\") is taken for an absent member, so a response the library itself emits is rejected or classified as another kind")
+    R.extra["truthiness_reads_in_parser"] = n
+
+
 def kind_table(P: Project, R: Report) -> None:
     legacy = P.cls(A.MOD_JSONRPC, "JSONRPCMessage")
     meths = P.methods(legacy)
